@@ -604,6 +604,11 @@ impl Hooks for ThreadHooks {
             "lock_held_across_yield",
             format!("the channel state lock was held by a thread that reached a scheduling point; `{site}` would wait on it"),
         );
+        self.sched.violate(
+            "C08",
+            "lock_held_across_yield",
+            format!("the channel state lock was held by a thread that reached a scheduling point; `{site}` waits for it before any timeout counts"),
+        );
         {
             let mut st = self.sched.lock();
             st.aborted = Some("lock contended".into());
